@@ -24,14 +24,15 @@ ASSUMPTIONS = ['verif/ddl.py reads SQL by lexical rules; string defaults are res
                'identifiers contain no double quote (inexpressible in DBML)']
 
 DEFAULTS = [['none'], ['int', 0], ['int', 1], ['int', 42], ['float', 0.0], ['float', 1.5], ['bool', True], ['bool', False],
-            ['str', ''], ['str', 'x'], ['str', 'a b'], ['expr', 'now()'], ['expr', "f(a, 'b')"], ['expr', '']]
+            ['str', ''], ['str', 'x'], ['str', 'a b'], ['expr', 'now()'], ['expr', "f(a, 'b')"], ['expr', ''],
+            ['expr', '(a + 1) * (b + 2)'], ['expr', '(x)']]
 TYPES = [['str', 'int'], ['str', 'varchar(255)'], ['str', 'decimal(10, 2)'], ['str', 'int[]'], ['enum', 'public', 'e'],
          ['enum', 's', 'e2'], ['str', 'character varying']]
 SCHEMAS = ['public', 's', 'my schema']
 PK_LAYOUTS = ['none', 'single', 'comp2', 'comp3', 'pkindex', 'single+pkindex', 'comp2+pkindex']
 INDEX_TYPES = [None, 'btree', 'hash', 'gin', 'gist', 'brin', 'spgist']
 SUBJECTS = [[['col', 'id']], [['col', 'id'], ['col', 'x y']], [['expr', 'id*2']], [['expr', 'lower(id)'], ['col', 'id']],
-            [['col', 'x y']], [['col', 'x y'], ['col', 'id'], ['expr', 'a,b']]]
+            [['col', 'x y']], [['col', 'x y'], ['col', 'id'], ['expr', 'a,b']], [['expr', '(id) + (id)']], [['col', 'id'], ['expr', '(id)']]]
 
 
 def bounds(tier):
